@@ -36,6 +36,9 @@ pub use lorawan::{
 #[deprecated(since = "0.12.2", note = "Please use `NwkSKey` instead")]
 pub use lorawan::keys::NwkSKey as NewSKey;
 
+#[cfg(feature = "verif-hooks")]
+pub mod verif;
+
 pub use rand_core::RngCore;
 mod rng;
 pub use rng::Prng;
